@@ -469,6 +469,10 @@ pub fn crafted_world(seed: u64, idx: u64, s: &dyn SuiteOps) -> World {
             let e = MontgomeryPoint(a).to_edwards((i % 2) as u8)?;
             Some((e + EIGHT_TORSION[i]).to_montgomery().to_bytes().to_vec())
         };
+        // a key share with bit 255 set: X25519 ignores the bit, the transcript must not
+        let mut top = ke1[noe + 32..].to_vec();
+        top[31] ^= 0x80;
+        reqs.push(with(&ke1, noe + 32, &top));
         for i in 1..8 {
             if let Some(t) = twist(&ke1[noe + 32..], i) {
                 reqs.push(with(&ke1, noe + 32, &t));
